@@ -34,6 +34,12 @@ CLAIMS = {
  "C19": ("control-flow path enumeration of the stop methods normalised to roles and compared with the stated transition function + KIND (isinstance class-table evaluation of early-exit guards) + AST role rules on train()",
          "Decides the patience-based conditions as a transition function (strict `loss < best - min_delta` on the monitored argument; on improvement best:=loss, best_model:=model, counter:=0; otherwise counter+=1 only; result counter>patience) and EpochStop (best_model:=model on every path, result epoch>=epochs); since every history is a sequence of such transitions the all-histories quantifier is discharged by induction, with no length bound. KIND decides that no early-exit guard diverts a Python float, NumPy float32/float64 scalar or JAX scalar. train(): roles of the stop() arguments, one epoch increment per iteration, returns stop_condition.best_model.",
          "Trusted: real-number semantics of < on losses (NaN not considered); float()/item() preserve the value; the isinstance class table (float ⊇ {Python float, np.float64}, np.floating ⊇ NumPy float scalars, jax.Array ⊇ JAX scalars). Real training runs are not executed.", "3/C19"),
+ "C04": ("abstract interpretation of the repo's AST down to a modelled lax.conv_general_dilated, over a polynomial element domain (result == direct-sum definition as a polynomial identity)",
+         "Decides for every swept option combination (5 padding kinds, all 2^D torus-flag patterns for D=2, stride, filter dilation, image dilation, odd/even/non-square filters, several channels and batch entries, tensor orders, D=2,3) that convolve / convolve_contract / convolve_with / average_pool produce exactly the bilinear polynomial of the statement's direct sum with the standard output size; identities of polynomials hold for all real inputs. Even filters with TORUS/SAME/default padding must be rejected.",
+         "Trusted: the model of lax.conv_general_dilated (dimension numbers, feature groups, padding, strides, dilations) and jnp.pad(wrap) in ginverif.shims; float32 casts/rounding not modelled; the option box is finite.", "3/C04"),
+ "C11": ("abstract interpretation of the repo's AST over a polynomial element domain with symbolic weights, biases and filter bank (output block == defining sum + prescribed bias term; emitted types == reachable targets)",
+         "Decides for the swept signatures (several key orders, unequal channel counts), the five documented bias settings, padding modes, stride, dilations, torus flags, banks with a missing filter type and both code paths (individual_convolve via __call__, fast_convolve) that every output block equals the defining sum as a polynomial identity in inputs, weights, biases and filters, and that no reachable requested block is dropped.",
+         "Trusted: conv/einsum models; initial random values are irrelevant because parameters are symbols; the signature/option box is finite.", "3/C11"),
 }
 
 NA_REASON = "check not built yet in this session (build in progress); see DESIGN.md section 3 for the planned static rule"
